@@ -39,7 +39,7 @@ def rule_constructor(ctx):
     fi = ctx.fn(CLS + 'DimArray.__init__')
 
     def oracle(atom, st):
-        if atom == ('cmp', 'is', ('attr', SELF, '_order'), T.CONST_NONE):
+        if atom == T.mkcmp('is', ('attr', SELF, '_order'), T.CONST_NONE):
             return True
         if atom[0] == 'cmp' and atom[1] == 'is' and atom[2] in (P_('_indexing'), P_('_indexing_broadcast')):
             return False
@@ -106,6 +106,23 @@ ALLOWED_STORES = {
 }
 
 
+def _local_ctor(P, fi, name_node):
+    """'dataset' / 'ondisk' when the local name is only ever bound to a freshly constructed Dataset / on-disk store in this function"""
+    kinds = set()
+    for n in ast.walk(fi.node):
+        if isinstance(n, ast.Assign) and any(isinstance(t, ast.Name) and t.id == name_node.id for t in n.targets):
+            v = n.value
+            callee = v.func.id if (isinstance(v, ast.Call) and isinstance(v.func, ast.Name)) else None
+            cands = [c for q, c in P.classes.items() if callee is not None and q.split('.')[-1] == callee]
+            if cands and all(c.module.relpath.startswith('dimarray/io/') for c in cands):
+                kinds.add('ondisk')
+            elif cands and all(c.qualname == 'dimarray.dataset.Dataset' for c in cands):
+                kinds.add('dataset')
+            else:
+                kinds.add(None)
+    return kinds.pop() if len(kinds) == 1 else None
+
+
 def rule_who_may_write(ctx):
     ctx.rule('R2', 'who may write ._values / ._axes; count-changing mutators on an array\'s Axes', 12)
     P = ctx.P
@@ -131,10 +148,9 @@ def rule_who_may_write(ctx):
                 owner = node.func.value.value
                 owner_txt = ast.unparse(owner)
                 in_dataset = fi.cls is not None and fi.cls.qualname in ('dimarray.dataset.Dataset', 'dimarray.dataset.DatasetAxes') and owner_txt == 'self'
-                if in_dataset or owner_txt == 'store':
+                ctor = _local_ctor(P, fi, owner) if isinstance(owner, ast.Name) else None
+                if in_dataset or ctor in ('ondisk', 'dataset'):
                     continue     # the Dataset's own axes list (C13) / on-disk store
-                if owner_txt == 'data' and fi.qualname == 'dimarray.dataset.Dataset.take':
-                    continue
                 ctx.violated('R2', fi, node, 'count-changing mutation of an array\'s axes list in place: the number of axes no longer '
                              'matches the number of dimensions', node=node)
             if isinstance(node, ast.Delete):
@@ -394,7 +410,7 @@ def rule_cache(ctx):
                     ctx.violated('R6', fi, e.node, 'the ordering flag may only be inherited by a sub-axis taken with a slice', node=e.node)
                     okg = False
                 # only a *positive* answer carries over: a slice of a non-monotonic axis may well be monotonic
-                truthy = [pol for a, pol in e.guards if a in (('attr', SELF, '_monotonic'), ('cmp', 'is', ('attr', SELF, '_monotonic'), T.CONST_TRUE))]
+                truthy = [pol for a, pol in e.guards if a in (('attr', SELF, '_monotonic'), T.mkcmp('is', ('attr', SELF, '_monotonic'), T.CONST_TRUE))]
                 if True not in truthy and e.c != T.CONST_TRUE:
                     ctx.violated('R6', fi, e.node, 'only a cached True may be inherited by a slice: a cached False (parent not monotonic) says nothing '
                                  'about the slice and would make later alignments depend on the array\'s history', node=e.node)
@@ -488,7 +504,7 @@ def rule_forms(ctx):
         ctx.holds('R7', '_init_axes total: %s' % sorted(builders))
     # builders pair names with labels coherently
     f = ctx.fn(AX + 'Axes.from_arrays')
-    ev = run(ctx, f, oracle=lambda a, st: False if a == ('cmp', 'is', P_('dims'), T.CONST_NONE) else None)
+    ev = run(ctx, f, oracle=lambda a, st: False if a == T.mkcmp('is', P_('dims'), T.CONST_NONE) else None)
     for p in ret_paths(ev):
         v = p.value
         want = ('call', P_('cls'), (('call', ('name', 'list'), (('call', ('name', 'zip'), (P_('dims'), P_('arrays')), ()),), ()),), ())
@@ -497,7 +513,7 @@ def rule_forms(ctx):
         else:
             ctx.holds('R7', 'from_arrays: zip(dims, arrays)')
     f = ctx.fn(AX + 'Axes.from_shape')
-    ev = run(ctx, f, oracle=lambda a, st: False if a == ('cmp', 'is', P_('dims'), T.CONST_NONE) else None)
+    ev = run(ctx, f, oracle=lambda a, st: False if a == T.mkcmp('is', P_('dims'), T.CONST_NONE) else None)
     good = False
     for p in ret_paths(ev):
         for e in p.calls('Axis'):
